@@ -586,6 +586,24 @@ def cut (lim : LimitOffset) (l : List Row) : List Row :=
   let l := if lim.offsetActive then l.drop lim.offset.toNat else l
   if lim.limitActive then l.take lim.limit.toNat else l
 
+set_option linter.unusedSimpArgs false in
+/-- `cutRows` answers exactly when no written bound is negative, and then with `cut` -/
+theorem cutRows_ok_iff {lim : LimitOffset} {rows out : List Row} :
+    cutRows lim rows = .ok out ↔ Spec.boundsOK lim = true ∧ out = cut lim rows := by
+  have e : ∀ a b : List Row, (X.ok a = X.ok b) = (b = a) := fun a b => by
+    simp only [X.ok.injEq]; exact propext eq_comm
+  unfold cutRows Spec.boundsOK cut
+  simp only [← Int.not_lt]
+  by_cases ho : lim.offset < 0 <;> by_cases hl : lim.limit < 0 <;>
+  cases lim.offsetActive <;> cases lim.limitActive <;>
+    simp only [ho, hl, e, Bool.false_and, Bool.true_and, Bool.not_false, Bool.not_true, Bool.false_or,
+      Bool.true_or, Bool.and_self, Bool.false_eq_true, if_false, if_true, decide_eq_true_eq, true_and,
+      decide_true, decide_false, Bool.and_true, Bool.and_false, false_and, reduceCtorEq,
+      not_true_eq_false, not_false_eq_true]
+
+theorem cutRows_of_boundsOK {lim : LimitOffset} (h : Spec.boundsOK lim = true) (rows : List Row) :
+    cutRows lim rows = .ok (cut lim rows) := cutRows_ok_iff.2 ⟨h, rfl⟩
+
 /-- the field list of a plain table: its columns, qualified by the alias if there is one -/
 def tableFields (t : TableName) (tbl : Table) : List Field :=
   tbl.cols.map fun c => ⟨(match t.alias with | some a => a | none => t.name), c⟩
@@ -596,8 +614,7 @@ def selectTail (q : Select) (fields : List Field) (filtered : List Row) :
   let (rows, hdr) ← projectColumns q.list fields filtered
   let rows ← aggregateRows q.list q.groupBy rows
   let rows ← sortColumns q.orderBy (sortFields q.list hdr) rows
-  let rows := if q.lim.offsetActive then rows.drop q.lim.offset.toNat else rows
-  let rows := if q.lim.limitActive then rows.take q.lim.limit.toNat else rows
+  let rows ← cutRows q.lim rows
   pure (rows, hdr)
 
 theorem evaluateSelect_from (fetch : Bytes → Option Table) (q : Select) (tr : TableRef)
@@ -626,12 +643,14 @@ theorem selectTail_ok {q : Select} {fields : List Field} {filtered rows : List R
   simp only [aggregateRows_noAggr _ hagg hgb, bind_ok] at h
   rw [bind_eq_ok] at h
   obtain ⟨sorted, hsort, h⟩ := h
+  rw [bind_eq_ok] at h
+  obtain ⟨cutted, hcut, h⟩ := h
   simp only [pure_eq_ok, X.ok.injEq, Prod.mk.injEq] at h
   obtain ⟨hrows, hhdr⟩ := h
   subst hhdr
   obtain ⟨keys, hkeys, hcomp, hsorted⟩ := sortColumns_ok hsort
   refine ⟨projected, keys, hproj, hkeys, hcomp, ?_⟩
-  rw [← hrows, hsorted]; rfl
+  rw [← hrows, (cutRows_ok_iff.1 hcut).2, hsorted]
 
 /-- **A single-table SELECT without aggregates and without GROUP BY is
 filter → project → sort → offset → limit**, in that order and nothing else. -/
